@@ -94,7 +94,11 @@ def appOfJson (j : Json) : Except String App := do
       | "raise" => pure IterAct.raise
       | other => throw s!"unknown act {other}"
     else throw "empty act")
-  pure { call, callRaises := (← getBool j "call_raises"), iter, hasClose := (← getBool j "has_close") }
+  let flag (k : String) (dflt : Bool) : Except String Bool :=
+    match getOpt j k with | some b => b.getBool? | none => pure dflt
+  pure { call, callRaises := (← getBool j "call_raises"), iter, hasClose := (← getBool j "has_close"),
+         selfIter := (← flag "self_iter" true), iterRaises := (← flag "iter_raises" false),
+         iterHasClose := (← flag "iter_has_close" false) }
 
 def jsonOfMsg : Msg → Json
   | .start st hs => Json.mkObj [("type", "start"), ("status", toJson st), ("headers", jsonOfHeaders hs)]
@@ -117,7 +121,7 @@ def runAppH : Handler := fun j => do
   let app ← appOfJson (← j.getObjVal? "app")
   let o := wrapper v kind max sc msgs app
   pure (Json.mkObj [("sent", Json.arr (o.sent.map jsonOfMsg).toArray), ("app_calls", toJson o.appCalls),
-    ("spawns", toJson o.spawns), ("close_calls", toJson o.closeCalls), ("iter_obtained", o.iterObtained),
+    ("spawns", toJson o.spawns), ("close_calls", toJson o.closeCalls), ("iter_close_calls", toJson o.iterCloseCalls), ("iter_obtained", o.iterObtained),
     ("exc", optJson (fun e => Json.str (pyErrName e)) o.exc), ("waiting", o.waiting),
     ("environ", optJson jsonOfEnviron o.environ)])
 
